@@ -372,8 +372,7 @@ theorem mvp60_fetched_behind_jump_is_discarded (app : App) (c : Int) (fu : Model
 /-- **one tick of MVP-6.0 is a number of steps of the unpipelined machine — with jumps** (class `Model.Mvp60.JClass`, every
 number of units): after a tick from related states the relation holds again for the state the unpipelined machine has reached
 (between normal ticks, in the drain after a `ret`, in the drain before a flush), or the run has ended with the unpipelined
-machine's `ret` / defined error and its registers and memory, or "past the end" with the registers and memory of the state it
-has reached.  `hT`: the targets of the control transfers of the unpipelined run are instructions of the program (for `jalr`:
+machine's `ret` / defined error / end past the last instruction, with its registers and memory.  `hT`: the targets of the control transfers of the unpipelined run are instructions of the program (for `jalr`:
 `Proofs.Mvp60Sl.tgtOk_of_spec`). -/
 theorem mvp60_tick_is_sequential_steps_with_jumps (app : App) (hp : Proofs.Mvp60Sl.ProgJ app) (a0 : Arch)
     (hT : ∀ k a, Proofs.Mvp4.seqIter app k a0 = some a → Proofs.Mvp60Sl.TgtOk app a)
